@@ -589,6 +589,7 @@ def gen_trees(ck, tier):
 def run(tier, seed):
     ck = Check("C04", tier, seed)
     ck.disagreements = []
+    ck.cov["specified_model_ne_spec"] = 0
     ck.cov["rule"] = ("random rule trees (depth <= 4, width <= 3; thorough also depth 5) over style rules with selector lists "
                       "(`&` alone, `&-suffix`, `&.x`, `a &`, `& + &`, leading combinators), declarations, nested properties, "
                       "@media (feature-only queries and query lists), @supports, unknown at-rules, @at-root with/without queries, "
@@ -621,9 +622,14 @@ def run(tier, seed):
     tagged = [f for f in failing if f["tags"]]
     ck.cov["known_class_failures"] = len(tagged)
     reported = 0
+    from vlib import known_findings
+    known = {k["id"]: k for k in known_findings("C04")}
     for f in tagged:
-        for tag in f["tags"]:
-            ck.impl_violation(f["source"], f, tags=[tag])
+        if ck.impl_violation(f["source"], f, tags=f["tags"][:1]):      # not (any longer) a known entry
+            reported += 1
+        for tag in f["tags"][1:]:
+            if tag in known:
+                ck.known_line(known[tag])
     for f in untagged[:3]:
         small = shrink(ck, pool, f, lambda g: not g["tags"])
         small["shrunk_from"] = f["source"]
